@@ -14,9 +14,12 @@ for p in $(cat /verif/driver/built.txt); do
 done
 cargo build --offline --release -p props $BINS
 cargo build --offline --profile checked -p props $BINS
+# third profile: the same monitors against vek built with `libm` instead of `std` (own target directory)
+CARGO_TARGET_DIR=/verif/target/libm cargo build --offline --release -p props $BINS --no-default-features --features vek-libm
 if grep -q '^C20$' /verif/driver/built.txt; then
   # the C20 monitor needs vek's interoperability features (az, mint, bytemuck)
   cargo build --offline --release -p props --bin c20 --features interop
   cargo build --offline --profile checked -p props --bin c20 --features interop
+  CARGO_TARGET_DIR=/verif/target/libm cargo build --offline --release -p props --bin c20 --no-default-features --features vek-libm,interop
 fi
 echo "setup: monitor binaries built"
